@@ -1,12 +1,15 @@
 #!/bin/sh
 # confirm each delivered seeded change in its worktree, then run the property's quick check against it (scratch worktree mode)
+# MUT: directory holding the sub-agents' worktrees (default /tmp/mut); SUF: suffix of the name under seeded/ (e.g. -r2)
+MUT=${MUT:-/tmp/mut}
+SUF=${SUF:-}
 cd /verif
 for i in "$@"; do
-  ( python3 tools/seed_confirm.py $i > /tmp/mut/$i.confirm.log 2>&1
-    if [ -d seeded/$i ]; then
-      python3 tools/seed_run.py $i --wt > /tmp/mut/$i.run.log 2>&1
-      git -C /repo worktree remove --force /tmp/mut/$i
+  ( python3 tools/seed_confirm.py $i $MUT/$i --name $i$SUF > $MUT/$i.confirm.log 2>&1
+    if [ -f seeded/$i$SUF/meta.json ] && grep -q "confirmed ->" $MUT/$i.confirm.log; then
+      python3 tools/seed_run.py $i$SUF --wt > $MUT/$i.run.log 2>&1
+      git -C /repo worktree remove --force $MUT/$i
     fi ) &
 done
 wait
-for i in "$@"; do echo "== $i"; tail -n 2 /tmp/mut/$i.confirm.log; [ -f /tmp/mut/$i.run.log ] && head -n 4 /tmp/mut/$i.run.log; done
+for i in "$@"; do echo "== $i$SUF"; tail -n 2 $MUT/$i.confirm.log; [ -f $MUT/$i.run.log ] && head -n 4 $MUT/$i.run.log; done
